@@ -18,6 +18,7 @@ EXPLANATION = (
     "go through the descriptor's __set__, whose list-typed branch raises for every value outside "
     "the declared list before storing; C16-R4 must-analysis over the descriptor's __set__: every "
     "non-raising exit stores the value in the instance under the key __get__ reads (the last -C wins)."
+    ' C16-R2 also: the input is read as bytes, the output is opened with the constant UTF-8.'
 )
 ASSUMPTIONS = ["argparse behaviour is the stdlib's", "the meaning of the written text is C01's"]
 
